@@ -116,7 +116,7 @@ fn gen_text(c: &mut Case<'_>, unicode: bool, max: usize) -> String {
 
 fn gen_str(c: &mut Case<'_>) -> String {
     match c.t.below(6) {
-        0 => c.t.pick(&["s3:GetObject", "s3:PutObject", "s3:*", "arn:aws:s3:::bucket/*", "arn:aws:s3:::bucket", "AWS", "s3:ListBucket"]).to_string(),
+        0 => c.t.pick(&["s3:GetObject", "s3:PutObject", "s3:*", "arn:aws:s3:::bucket/*", "arn:aws:s3:::bucket", "AWS", "s3:ListBucket", "*", "*", "arn:aws:iam::123456789012:root"]).to_string(),
         1 => c.t.string(Alpha::Simple, 8),
         2 => c.t.string(Alpha::Xml, 12),
         3 => c.t.string(Alpha::Query, 12),
@@ -157,7 +157,9 @@ fn gen_principal(c: &mut Case<'_>) -> Principal {
         let n = c.t.len(3);
         let mut m = IndexMap::new();
         for _ in 0..n {
-            m.insert(gen_str(c), gen_one_or_more(c));
+            // the documented principal kinds as well as arbitrary keys
+            let k = if c.t.bool() { (*c.t.pick(&["AWS", "Service", "Federated", "CanonicalUser"])).to_owned() } else { gen_str(c) };
+            m.insert(k, gen_one_or_more(c));
         }
         Principal::Map(m)
     } else {
